@@ -474,6 +474,15 @@ def install_token_and_registry(S: Any, me_key: Any, aad: Any, auth: Any, header:
 
     def reg_get(S: Any, reg: Any, session_id: Any, principal_key: Any) -> Any:
         S.event("registry_get", session_id, principal_key)
+        if st["get"] is not None:
+            # a repeated lookup (re-validation after taking the entry lock, C26): the same arguments, and the
+            # registry either still holds that entry or lost it meanwhile
+            S.oblige("O2.revalidation_asks_for_the_same_session_and_principal_key", And(eq(session_id, st["get"][0]), eq(principal_key, st["get"][1])), kind="pre")
+            if st["entry"] is None or S.choose(2) == 1:
+                S.inputs["get"] = "lost_while_waiting"
+                st["entry"] = None
+                return None
+            return st["entry"]
         st["get"] = (session_id, principal_key)
         if S.choose(2) == 1:
             S.inputs["get"] = "miss"
@@ -798,6 +807,7 @@ def mint(S: Any) -> None:
     pk = S.str("principal_key")
     new_sid, exp = S.bytes("new_session_id"), S.int("expires_at")
     S.assume(new_sid.length() == SIDLEN)
+    state = SObj(None, kind="State", tag="new state")
     reg = SObj(sk._SessionRegistry)
 
     def reg_open(S: Any, r: Any, state: Any, ttl: Any, principal_key: Any) -> Any:
@@ -808,12 +818,16 @@ def mint(S: Any) -> None:
         S.event("seal", a, kw)
         return S.str("minted_token")
 
+    def reg_lookup(S: Any, r: Any, session_id: Any, principal_key: Any) -> Any:
+        S.oblige("O5.only_the_new_session_is_looked_up", session_id is new_sid and principal_key is pk, kind="pre")
+        return SObj(sk._SessionEntry, state=state, expires_at=exp, principal_key=pk, lock=SObj(None, kind="RLock", name="new.entry.lock"))
+
     S.handlers["_SessionRegistry.open"] = reg_open
+    S.handlers["_SessionRegistry.get"] = reg_lookup
     S.handlers["_seal_session_token"] = seal
     S.handlers[int] = lambda S, x=0, *a: x if isinstance(x, SInt) else models.b_int(S.interp, x, *a)
     me = SObj(sk._StickyMiddleware, _registry=reg, _token_key=key)
     req, resp, ctx = mk_req(S, None, worker)
-    state = SObj(None, kind="State", tag="new state")
     ttl = S.int("ttl")
     out = S.outcome(sk._StickyMiddleware._open_session, me, req, pk, state, ttl)
     S.oblige("O5.mint_returns", out.returned, kind="raises")
@@ -894,6 +908,8 @@ def registry_get(S: Any) -> None:
     S.assume(Not(eq(other, sid)))
     S.handlers[_time.time] = lambda S: now
     S.handlers["_SessionRegistry._close_state_suppressed"] = lambda S, state: S.event("close_hook", state, "registry_lock" in S.ghost.get("__held__", []))
+    # the helper that runs the hook under the entry's lock (its lock discipline is C26.O4): by contract, the same event
+    S.handlers["_SessionRegistry._close_entry"] = lambda S, reg, entry: S.event("close_hook", entry.fields["state"], "registry_lock" in S.ghost.get("__held__", []))
     me = SObj(sk._SessionRegistry, _entries=E, _lock=SObj(None, kind="Lock", name="registry_lock"), _default_ttl=300, _draining=False)
     out = S.outcome(sk._SessionRegistry.get, me, sid, pk)
     S.oblige("O3.get_never_raises", out.returned, kind="raises")
